@@ -21,7 +21,7 @@ RULE = ("Hypothesis: a history of 1-8 operations (append / delete_files / expire
         "pointer is damaged by a byte grammar {deleted, empty, whitespace, random bytes, invalid UTF-8, digits (missing legacy / huge), legacy name, "
         "well-formed name of a missing file, of an OLDER committed version (stale), of an uncommitted orphan, current name with LF/CRLF/spaces, with path "
         "separators or '..'}, then - in a third of the cases - the same open/append once under a storage READ error (nth list_files/read_file/exists/"
-        "get_modified_time call fails, one-shot or persistently; refusing is allowed), then an action {load_table, create_table(other schema), append, scan, garbage_collect after ageing}. Oracle: the model knows "
+        "get_modified_time call fails, one-shot or persistently; refusing is allowed), then an action {open while another handle's commit lands right after the opener's first metadata listing, load_table, create_table(other schema), append, scan, garbage_collect after ageing}. Oracle: the model knows "
         "the sequence of committed versions; the table in effect must have the original uuid and schema and the snapshot list and rows of the LATEST "
         "COMMITTED version; create_table must not re-initialise; an append must preserve all committed rows; GC must not delete files of the latest "
         "committed version. Non-trivial: the highest vN on disk is not the latest committed version, or the pointer names an existing but wrong version. "
@@ -32,7 +32,7 @@ REQUIRED_LABELS = {"quick": ["orphan-higher-than-committed", "damage:stale", "da
 
 DAMAGES = ["deleted", "empty", "whitespace", "random", "invalid_utf8", "digits_missing", "digits_lower", "digits_huge", "legacy_name", "legacy_lower", "missing_file", "stale",
            "orphan", "current_lf", "current_crlf", "current_spaces", "path_sep", "dotdot", "long_garbage"]
-ACTIONS = ["load_table", "create_table", "append", "append_then_lose_pointer", "scan", "gc"]
+ACTIONS = ["load_table", "create_table", "append", "append_then_lose_pointer", "scan", "gc", "open_during_commit"]
 
 
 @st.composite
@@ -114,6 +114,13 @@ def check_case(case):
         higher = [o for o in orphans if _version_of(o) >= vL]
         if higher:
             out["labels"].append("orphan-higher-than-committed")
+        # a writer handle that is already open when the pointer gets damaged (used by the action open_during_commit)
+        wt_early = None
+        if case["action"] == "open_during_commit":
+            try:
+                wt_early = datashard.load_table(root)
+            except Exception:
+                wt_early = None
         # ---- damage
         dmg = case["damage"]
         hint = os.path.join(root, HINT)
@@ -206,8 +213,52 @@ def check_case(case):
             out["labels"].append(f"fault:{case['fault']['method']}:{'fired' if sf.fired else 'not-reached'}")
             if act == "create_table":
                 act = "load_table"
+        during = None
+        if act == "open_during_commit" and not case.get("fault"):
+            # a reader opens the damaged table WHILE another handle commits: the commit lands right after the reader's first
+            # listing of metadata/ (forced from a one-shot wrapper around the storage listing, not timed). Recovery is a
+            # read-only affair: the acknowledged commit must survive it.
+            from datashard.storage_backend import LocalStorageBackend as _B
+
+            wt = wt_early
+            if wt is None:
+                out["labels"].append("writer-handle-unavailable")
+                return out
+            orig_list = _B.list_files
+            fired = [False]
+
+            def listing(obj, prefix):
+                res_ = orig_list(obj, prefix)
+                if not fired[0] and str(prefix).strip("/") == "metadata":
+                    fired[0] = True
+                    faulted = ({"k": -5, "s": "during"}, False)
+                    try:
+                        wt.append_records([faulted[0]])
+                        faulted = (faulted[0], True)
+                    except Exception:
+                        pass
+                    during_box.append(faulted)
+                return res_
+
+            during_box = []
+            _B.list_files = listing
+            try:
+                try:
+                    t = datashard.load_table(root)
+                except Exception as e:  # noqa
+                    vio("open-raises", f"opening raised {type(e).__name__}: {str(e)[:120]}")
+                    return out
+            finally:
+                _B.list_files = orig_list
+            if during_box:
+                out["labels"].append("commit-landed-during-open")
+                faulted_row = during_box[0]
+            during = True
+            act = "load_table"
         try:
-            if act == "create_table":
+            if during:
+                pass
+            elif act == "create_table":
                 t = datashard.create_table(root, other_schema)
             else:
                 t = datashard.load_table(root)
